@@ -50,7 +50,7 @@ SPEC = {
             {"k": "op", "id": 1, "op": "Softmax", "args": [{"v": "X"}], "attrs": {"axis": {"ref": "axis"}}, "out": 1},
             {"k": "op", "id": 2, "op": "Add", "args": [{"v": "%1.0"}, {"v": "%0.0"}], "attrs": {}, "out": 1},
         ],
-        "ret": ["%2.0"],
+        "ret": ["%2.0", "%0.0"],
     },
 }
 
@@ -78,7 +78,8 @@ def softax(X, axis: int):
 def cumax(X, axis: int = 0, keep: int = 0):
     m = op.ReduceMax(X, keepdims=keep)
     t = op.Softmax(X, axis=axis)
-    return op.Add(t, m)
+    r = op.Add(t, m)
+    return r, m
 
 
 SCRIPT = {"leaky": leaky, "addmul": addmul, "softax": softax, "cumax": cumax}
